@@ -168,3 +168,50 @@ void h_translate_unbounded(void) {
     VERIF_REACH();
 }
 #endif
+
+#ifdef H_TRANSLATE_W
+/* Unbounded in n, ARBITRARY coordinates: one index g_i is watched.  Every table row ks[i], i != g_i, points to one well-formed block set A
+ * (__CPROVER_array_set), ks[g_i] to another one, B; the mask is a fully symbolic array.  Decides for every n and every g_i < n: in
+ * iteration g_i exactly the rows (g_i, j, digit_j(a[g_i])) with non-zero round-to-nearest digit are subtracted, each once, from B and on the
+ * result sample; no other iteration touches B; every access of the other iterations stays inside A, at a non-zero digit index.
+ * This removes both restrictions of H_TRANSLATE_U (equal coordinates, "iteration i reads only a_i and ks[i]" taken on syntactic grounds). */
+#define T_ VERIF_T
+#define BB_ VERIF_BASEBIT
+#define BASE_ (1 << VERIF_BASEBIT)
+#define K_ (32 - T_ * BB_)
+#define DIG(A, j) ((uint32_t)(((((uint64_t)(uint32_t)(A) + ((uint64_t)1 << (K_ - 1))) >> K_) & ((((uint64_t)1) << (T_ * BB_)) - 1)) >> ((T_ - 1 - (j)) * BB_)) & (uint32_t)(BASE_ - 1))
+#include "tnz.inc"
+#define KS_WATCHED
+#include "c_ks.h"
+static LweSample *rowA[T_], *rowB[T_];
+int32_t u_bad, u_cnt, u_cntB, g_i; Torus32 u_A; static LweSample *u_res; static const LweParams *u_par;
+#define W_ROWB(j) if (__CPROVER_same_object(sample, rowB[j])) { long d = sample - rowB[j]; found = 1; u_cntB++; if (d <= 0 || d >= BASE_ || (uint32_t)d != DIG(u_A, j)) u_bad++; }
+#define W_ROWA(j) if (__CPROVER_same_object(sample, rowA[j])) { long d = sample - rowA[j]; found = 1; if (d <= 0 || d >= BASE_) u_bad++; }
+void lweSubTo(LweSample *result, const LweSample *sample, const LweParams *params) {
+    int found = 0;
+    TFOR(W_ROWB)
+    TFOR(W_ROWA)
+    if (!found || result != u_res || params != u_par) u_bad++;
+    u_cnt++;
+}
+#include "extracted.inc"
+void h_translate_watched(void) {
+    int32_t n; __CPROVER_assume(n >= 1 && n <= VERIF_NMAX);
+#define W_ALLOC(j) rowA[j] = verif_alloc((size_t)BASE_ * sizeof(LweSample)); rowB[j] = verif_alloc((size_t)BASE_ * sizeof(LweSample));
+    TFOR(W_ALLOC)
+    const LweSample ***ks = verif_alloc((size_t)n * sizeof(const LweSample **));
+    __CPROVER_array_set(ks, (const LweSample **)rowA);
+    int32_t gi; __CPROVER_assume(gi >= 0 && gi < n); g_i = gi; ks[gi] = (const LweSample **)rowB;
+    Torus32 *ai = verif_alloc((size_t)n * sizeof(Torus32));          /* arbitrary mask */
+    u_A = ai[gi];
+    LweSample res; LweParams op; u_res = &res; u_par = &op; u_bad = 0; u_cnt = 0; u_cntB = 0;
+    lweKeySwitchTranslate_fromArray(&res, ks, &op, ai, n, T_, BB_);
+    __CPROVER_assert(u_bad == 0, "iteration g_i subtracts rows (g_i, j, digit_j(a[g_i])) with the property's round-to-nearest digit; every other access stays inside its own row block at a non-zero digit; always on the result sample");
+    __CPROVER_assert(u_cntB == TNZ_PREFIX(u_A, T_), "the rows of index g_i are used exactly once per non-zero digit of a[g_i], and by no other iteration");
+    __CPROVER_assert(ai[gi] == u_A, "mask untouched");
+#define W_FREE(j) free(rowA[j]); free(rowB[j]);
+    TFOR(W_FREE)
+    free(ks); free(ai);
+    VERIF_REACH();
+}
+#endif
